@@ -23,7 +23,7 @@ CLAIMED = {
                 "handlers, word-list and name=value kinds, and the whole-command clauses (nothing else changes, global options before the sub-command, PodmanArgs after the key options, object then Exec last) "
                 "are decided by the direct metamorphic oracle on implementation output (with/without the key, all 7 types) plus whole-service correspondence with the converter model. "
                 "Position clauses proved for EVERY successful conversion of ALL SEVEN unit types (C02_container_command_shape, C02_image_command_shape, C02_network_command_shape, C02_volume_command_shape, C02_kube_command_shape, C02_build_command_shape on ExecStart=, C02_pod_command_shape on ExecStartPre=: every handler only appends, so the command is "
-                "[podman] ++ --module options ++ GlobalArgs ++ sub-command words ++ key options ++ PodmanArgs ++ object (image or --rootfs R / name) ++ Exec words -- global options before the sub-command, PodmanArgs after all key options, object then Exec last).",
+                "[podman] ++ --module options ++ GlobalArgs ++ sub-command words ++ key options ++ PodmanArgs ++ object (image or --rootfs R / name) ++ Exec words -- global options before the sub-command, PodmanArgs after all key options, object then Exec last). RUN LEVEL: C02_run_services_are_conversions (every service of the whole run with drop-ins is one conversion of one input file merged with its drop-ins, so the converter-level theorems speak about every service of the run) and C02_every_container_service_of_the_run.",
         "note": "Trusted: Coq kernel; tools/docs.py / Spec/Docs.v as the documentation transcript; the converter model; extraction; driver; Mount= modelled only on the csv crate's quote-free domain.",
         "technique": "machine-checked proof in Rocq (Coq 8.16) of table equalities and handler frame theorems; metamorphic oracle and differential correspondence for the whole command",
         "design": "DESIGN.md §7 C02",
@@ -212,7 +212,7 @@ CLAIMED = {
                 "digits+ ('-' digits+)? ('/tcp'|'/udp')? stated declaratively (PortRe); full for the recogniser. Tied to /repo by differential runs "
                 "through the real container converter (exhaustive over a 10-symbol alphabet to length 4/6) and a direct oracle on the implementation's "
                 "output (accept <=> regex, '--expose <trimmed value>' present, rejection quotes the value). The call-site clause is checked by that oracle, not yet by a theorem. "
-                "Call site proved over the whole container converter: C20_callsite_accepts (if a container converts, every effective ExposeHostPort= value, trimmed, is in the language and the command carries exactly --expose <trimmed value> for each of them, in order, as one consecutive run) and C20_callsite_rejects (a value outside the language makes the conversion of that container fail).",
+                "Call site proved over the whole container converter: C20_callsite_accepts (if a container converts, every effective ExposeHostPort= value, trimmed, is in the language and the command carries exactly --expose <trimmed value> for each of them, in order, as one consecutive run) and C20_callsite_rejects (a value outside the language makes the conversion of that container fail). RUN LEVEL: C20_every_container_service_of_the_run (every container service of the whole run with drop-ins: the effective ExposeHostPort= values of the merged unit are in the language and the command carries --expose for each).",
         "note": "Trusted: Coq kernel; Spec/PortRe.v; extraction; driver; the Python regex used as search oracle. Unicode trim at the call site is modelled (Model/PortRange.v trim) and compared, not proved.",
         "technique": "machine-checked proof in Rocq (Coq 8.16): recogniser = regular language, plus differential correspondence check",
         "design": "DESIGN.md §7 C20",
